@@ -53,6 +53,8 @@ var scopeTable = []scopeEntry{
 	sc("CMD-6", `:(descent|own-tokens|split)`, "C04", "C07"),
 	sc("CMD-6", `^writers\(Cmd\.fsm\)`, "C04"),
 	// registration
+	sc("DECL-4", `:listed|^writers\(Cmd\.options`, "C10", "C16", "C18"), // [OPTIONS] is derived from the list
+	sc("DECL-4", `.`, "C10", "C18"),
 	sc("DECL-5", `:insert`, "C18"),
 	sc("DECL-5", `:listed`, "C16", "C18"),
 	sc("DECL-5", `validArgName`, "C18"),
@@ -72,7 +74,7 @@ var scopeTable = []scopeEntry{
 	sc("FSM-6", `:clears-env-flag`, "C06", "C12"),
 	sc("FSM-6", `:error-returned`, "C07", "C13", "C19"),
 	sc("FSM-6", `:every-container`, "C02", "C06", "C13", "C15", "C19"),
-	sc("FSM-6", `:set-each-in-order`, "C02", "C06", "C13", "C19"),
+	sc("FSM-6", `:set-each-in-order`, "C02", "C06", "C09", "C13", "C19"), // C09: what follows -- is bound verbatim
 	sc("FSM-6", `:sets-user-flag`, "C15"),
 	sc("FSM-6", `^writers\(\*ValueSetByUser\)`, "C15"),
 	// help
@@ -82,6 +84,7 @@ var scopeTable = []scopeEntry{
 	sc("MAT-12", `:bounds@`, "C03"),
 	// options-ended flag and the `--` token
 	sc("MAT-3", `:stops-at-dashdash`, "C01", "C02", "C09", "C15"),
+	sc("MAT-3", `optsEnd\.Match$`, "C01", "C02", "C09"), // a literal -- behind the marker is a positional, verbatim
 	sc("MAT-3", `Match$|try$`, "C01", "C09"),
 	// what is recorded
 	sc("MAT-2", `\(Opts\)`, "C02", "C10", "C13", "C15", "C19"),
